@@ -209,7 +209,7 @@ def _apply(it, c, fn, args, kwargs, node):
             it.raise_(TypeError, str(e), node=node)
     cx = Ctx(it, run.heap)
     site = f'{it.where()}#call[{c.nested_qualname if c.nested else fn.__qualname__}@L{getattr(node, "lineno", 0)}]'
-    it.called_contracts.add(c.name)
+    it.called_contracts.add(c.name + (' [assumed]' if c.assumed else ''))
     if hasattr(c, 'apply_at'):
         return c.apply_at(cx, p, node, site)
     pre = c.pre(cx, **p)
